@@ -132,14 +132,14 @@ def banded(draw, tier, base=True):
 
 def strategy(tier):
     mx = 8 if tier == "quick" else 12
-    return st.one_of(
+    return G.with_options(st.one_of(
         banded(tier),
         banded(tier, base=False),
         G.problem(min_streams=2, max_streams=mx, shape="mixed"),
         G.problem(min_streams=2, max_streams=mx, shape="mixed", multi_zone=True),
         G.problem(max_streams=mx),
         G.problem(max_streams=4, with_utilities=False),
-    )
+    ))
 
 
 PARTS = [Part("service", eval_case, {"quick": 1500, "thorough": 40000}, strategy=strategy, min_nontrivial={"quick": 300, "thorough": 8000})]
